@@ -570,6 +570,60 @@ def run(rep, ctx):
                          name, " (every argument is an integer argument checked by check_*int_arg)" if all_int and not deriv_err_ok else ""),
                      "%s stores no derivatives and raises no error when al->derivs is set: AMPL would "
                      "use uninitialised derivative values" % name)
+    # ---- E1: GSL functions whose failure is visible in the status only --------------------------------------------
+    # frozen table, read in GSL 2.7 specfunc/lambert.c: for x < -1/e both branches set result->val = -1.0 and return GSL_EDOM,
+    # so with the error handler off the plain forms gsl_sf_lambert_W0(x) / _Wm1(x) return the finite -1 and check_result sees no NaN
+    FINITE_ON_ERROR = ("gsl_sf_lambert_W0", "gsl_sf_lambert_Wm1")
+    e1 = rep.rule("C16.E1", "WHO-MAY-CALL", "GSL functions that report a domain error by status with a finite value (lambert_W0, lambert_Wm1) are called in "
+                  "their _e form only, and a status other than GSL_SUCCESS sets the evaluation error and returns", floor=2)
+    for f in F.funcs:
+        if f.cfg is None or f.is_dependent():
+            continue
+        par = {}
+        for n in f.walk():
+            for k_ in kids(n):
+                if k_ is not None and "i" in k_:
+                    par[k_["i"]] = n
+        for c in f.walk():
+            if c["k"] != "CallExpr":
+                continue
+            cal = c.get("callee") or ""
+            if cal in FINITE_ON_ERROR:
+                e1.fail("%s|%s" % (f.name, cal), short_loc(c.get("l")),
+                        "%s calls %s, whose domain error (x < -1/e) is a status only: the call returns -1, no NaN reaches check_result and no error is set" % (f.name, cal))
+                continue
+            if not (cal.endswith("_e") and cal[:-2] in FINITE_ON_ERROR):
+                continue
+            # the status: the variable the call's value is stored in
+            p_ = par.get(c.get("i"))
+            while p_ is not None and p_["k"] in set(TRANSPARENT) | {"ImplicitCastExpr", "ParenExpr"}:
+                p_ = par.get(p_.get("i"))
+            sv = None
+            if p_ is not None and p_["k"] == "BinaryOperator" and p_.get("op") == "=" and strip(kids(p_)[0])["k"] == "DeclRefExpr":
+                sv = strip(kids(p_)[0]).get("declId")
+            elif p_ is not None and p_["k"] == "VarDecl":
+                sv = p_.get("declId")
+            ok = False
+            direct = p_ is not None and p_["k"] in ("BinaryOperator", "IfStmt", "UnaryOperator") and sv is None     # if (f_e(..) != GSL_SUCCESS) / if (f_e(..))
+            for ifs in f.walk():
+                if ifs["k"] != "IfStmt":
+                    continue
+                ch = [x for x in ifs["c"] if x is not None]
+                cond, then = ch[0], ch[1]
+                uses = any(x["k"] == "DeclRefExpr" and x.get("declId") == sv for x in walk(cond)) if sv else (direct and any(x.get("i") == c.get("i") for x in walk(cond)))
+                if not uses:
+                    continue
+                ctext = render(cond).replace(" ", "")
+                polar = not re.search(r"==(GSL_SUCCESS|0)\b|^!", ctext)      # the then-branch is the failure branch
+                fail_branch = then if polar else (ch[2] if len(ch) > 2 else None)
+                if fail_branch is None:
+                    continue
+                seterr = any(x["k"] == "CallExpr" and (x.get("callee") or "") in ("eval_error", "error", "format_eval_error") for x in walk(fail_branch))
+                rets = any(x["k"] == "ReturnStmt" for x in walk(fail_branch))
+                if seterr and rets and (sv is None or f.cfg.dominates(c, cond)):
+                    ok = True
+            e1.check(ok, "%s|%s" % (f.name, cal), short_loc(c.get("l")), "%s: a status other than GSL_SUCCESS of %s sets the evaluation error and returns" % (f.name, cal),
+                     "%s: the status returned by %s is not tested (or the failure branch sets no error / does not return): the finite value -1 of a domain error is used" % (f.name, cal))
     formula_rules(rep, F, regs)
     return rep
 
